@@ -156,6 +156,8 @@ func runErrReply(rt *rapid.T, c *errReplyCase) {
 		body = bytes.Repeat([]byte("b"), 300)
 	}
 	allowed := errAllowed(c.Pair, c.Failure)
+	mainStart := time.Now()
+	var mainTook time.Duration // how long the judged exchange took, measured at the client
 	judge := func(tok string, r reply, extra string) {
 		switch {
 		case r.err != nil:
@@ -167,6 +169,19 @@ func runErrReply(rt *rapid.T, c *errReplyCase) {
 		for _, s := range allowed {
 			if r.status == s {
 				ok = true
+			}
+		}
+		// The route carries a 120 ms timeout in every case. When the reply took at least that long (a slow machine: the
+		// connect attempts, MOSN's retries of a failed connect with their back-off, the 535 ms a multiplexed pool may wait
+		// for a handshake) the timer is an injected event that can have happened, and its reply - the timeout status - is
+		// the other legitimate outcome of the race (DESIGN section 2 rule 4; seen once in a cold sandbox: dead-host -> 504).
+		// A timeout status BEFORE the timer can have fired stays a violation.
+		if !ok && c.Failure != "no-route" && c.Failure != "no-host" && mainTook >= opts.Timeout {
+			for _, s := range errAllowed(c.Pair, "timeout") {
+				if r.status == s {
+					ok = true
+					ev.Class(partErrReply, "timer-won-against-the-injected-failure")
+				}
 			}
 		}
 		if !ok {
@@ -201,7 +216,9 @@ func runErrReply(rt *rapid.T, c *errReplyCase) {
 			}
 		}
 		tok := "main" + cs.Name
+		mainStart = time.Now()
 		r := exchange(tok)
+		mainTook = time.Since(mainStart)
 		extra := ""
 		if more, ok := cl.Extra(30 * time.Millisecond); ok {
 			fail(c.Failure+"/second-response", "after the reply to %s more bytes arrived: %q", tok, ev.Short(more))
@@ -233,7 +250,10 @@ func runErrReply(rt *rapid.T, c *errReplyCase) {
 			}
 		}
 		tok := "main" + cs.Name
-		judge(tok, exchange(tok), "")
+		mainStart = time.Now()
+		r := exchange(tok)
+		mainTook = time.Since(mainStart)
+		judge(tok, r, "")
 	default: // bolt
 		xc, err := mesh.DialX(down, cs.Addr)
 		if err != nil {
@@ -266,7 +286,9 @@ func runErrReply(rt *rapid.T, c *errReplyCase) {
 			}
 		}
 		tok := "main" + cs.Name
+		mainStart = time.Now()
 		r := exchange(tok, 42)
+		mainTook = time.Since(mainStart)
 		time.Sleep(30 * time.Millisecond)
 		if fs, _ := xc.Responses(); len(fs) > n {
 			fail(c.Failure+"/second-response", "request %s got %d response frames", tok, len(fs)-n+1)
